@@ -220,6 +220,29 @@ class Case:
                     self.bad("absent_getitem_returns", absent=absent[:12], at=tag)
                 except KeyError:
                     pass
+            # what was deleted (or unlinked) stays gone: its id finds nothing, also when its name has been given to a new entity
+            live_ids, live_names = {i for _, i in model}, {n for n, _ in model}
+            for gn, gid in getattr(self, "gone", [])[-6:]:
+                if gid in live_ids:
+                    continue                # a link-list member that was appended again
+                self.ctx.count("deleted_ids_probed")
+                nc = "-" if gn is None else nameclass(gn)
+                reused = "name_reused" if gn in live_names else "name_free"
+                if gid in cont:
+                    self.bad("deleted_id_tests_present:" + reused, nc, at=tag)
+                try:
+                    got = cont[gid]
+                    self.bad("deleted_id_lookup_returns:" + reused, nc, at=tag, returned_id=got.id, returned_name=None if feats else got.name[:40])
+                except KeyError:
+                    pass
+                if gn is not None and gn not in live_names:
+                    if gn in cont:
+                        self.bad("deleted_name_tests_present", nc, at=tag, name=gn[:40])
+                    try:
+                        cont[gn]
+                        self.bad("deleted_name_lookup_returns", nc, at=tag, name=gn[:40])
+                    except KeyError:
+                        pass
             for i in (len(model), -len(model) - 1, len(model) + 7):
                 try:
                     cont[i]
@@ -355,6 +378,9 @@ class Case:
                     try:
                         del cont[key]
                         model.pop(i)
+                        if not hasattr(self, "gone"):
+                            self.gone = []
+                        self.gone.append((n, id_))
                         for where, names in witnesses:
                             if id_ not in names():
                                 self.bad("delete_removed_entity_named_after_the_id:%s" % where, "id_of_another_entity", deleted_id=id_, how=how)
